@@ -698,7 +698,8 @@ impl Axecutor {
             if self.mem_init_zero(start, length).is_ok() {
                 break;
             }
-            start += length;
+            // Always make progress: a zero length would otherwise retry the same address forever
+            start = start.saturating_add(std::cmp::max(length, 1));
         }
 
         Ok(start)
@@ -727,7 +728,8 @@ impl Axecutor {
             if res.is_ok() {
                 break;
             }
-            start += data.len() as u64;
+            // Always make progress: empty data would otherwise retry the same address forever
+            start = start.saturating_add(std::cmp::max(data.len() as u64, 1));
         }
 
         Ok(start)
